@@ -42,6 +42,21 @@ inductive FreqScope where
   | perClass   -- (class, index) along the path: two members of one class are counted together
   deriving Repr, DecidableEq
 
+/-- whose `sub_name` names a member of a NESTED object in the flattened keys
+    (`get_simple_type_info_with_prot`, the expansion of a class below the request class) -/
+inductive SubScope where
+  | member     -- the member's own (as for the arguments themselves, and as `object_to_simple_dict` writes)  (good)
+  | container  -- the `sub_name` of the member that holds the object
+  | other
+  deriving Repr, DecidableEq
+
+/-- when the WSGI transport answers a GET with the WSDL instead of calling the method (`is_wsdl_request`) -/
+inductive WsdlRule where
+  | firstName  -- the text before the first `=` of the query string is `wsdl` (any case): `?wsdl`, `?WSDL=…`   (good)
+  | suffix     -- the query string ends with `wsdl` (any case)
+  | other
+  deriving Repr, DecidableEq
+
 structure Facts03 where
   keyOrder : KeyOrder
   tagScope : TagScope
@@ -61,6 +76,8 @@ structure Facts03 where
   boolFormWords : Bool
   /-- HttpRpc reads the empty string as None for integers -/
   intEmptyIsNone : Bool
+  subNameScope : SubScope
+  wsdlRule : WsdlRule
 
 /-! ## Outcome as a monad (the type itself is C08's) -/
 
